@@ -142,7 +142,18 @@ for (n, ft, isf, tier) in [('double', 'double', '0', 'quick'), ('float', 'float'
                       preconditions=['sample point |coordinate| <= 10^6, view up to 10^5 x 10^5'],
                       assumed=['src.xy_at / ++loc.y() / *loc / loc.x()[1] move and read a locator at the stated offsets (C03 contracts); add_dst_mul_src accumulates weight * pixel channel-wise',
                                'cast_pixel / color_convert of the accumulated pixel into the result (C09)']))
-UNITS.append(Unit('rounding', 'C17', C, extracts=X_ALL, insts=[('r', 'quick', {'FTYPE': 'double', 'F_IS_FLOAT': '0'})],
+
+REPLAY_ROUND = r'''
+#include <boost/gil.hpp>
+#include <cmath>
+#include "vreplay.hpp"
+using namespace boost::gil;
+int main(int argc, char** argv){ vr::parse(argc, argv);
+  for (double x = -1000.0; x <= 1000.0; x += 0.125) { if (ifloor(x) != (std::ptrdiff_t)std::floor(x)) REPRODUCED("ifloor(%g) = %td", x, ifloor(x)); if (ifloor((float)x) != (std::ptrdiff_t)std::floor((float)x)) REPRODUCED("ifloor(float %g) = %td", x, ifloor((float)x));
+    std::ptrdiff_t r = iround(x); if (std::fabs((double)r - x) > 0.5) REPRODUCED("iround(%g) = %td is not a nearest integer", x, r); std::ptrdiff_t rf = iround((float)x); if (std::fabs((double)rf - x) > 0.5) REPRODUCED("iround(float %g) = %td", x, rf); }
+  NOT_REPRODUCED("iround / ifloor agree with floor / nearest on [-1000, 1000] in steps of 1/8"); }
+'''
+UNITS.append(Unit('rounding', 'C17', C, extracts=X_ALL, replay=REPLAY_ROUND, insts=[('r', 'quick', {'FTYPE': 'double', 'F_IS_FLOAT': '0'})],
                   checks=[Check('iround_f', 'h0_iround_f', enforce='iround_f', flags=FL), Check('iround_d', 'h0_iround_d', enforce='iround_d', flags=FL),
                           Check('ifloor_f', 'h0_ifloor_f', enforce='ifloor_f', flags=FL), Check('ifloor_d', 'h0_ifloor_d', enforce='ifloor_d', flags=FL)]))
 
